@@ -25,6 +25,15 @@
 (* set only) is told apart from a genuinely unbound field (accepted under  *)
 (* both).  spec/SigTrace.tla re-computes the expectation for the results   *)
 (* recorded from the real library and evaluates the property monitors.     *)
+(*                                                                         *)
+(* Further parts: the signer lists are enumerated in every order (the      *)
+(* property speaks of sets of signers); the delivery schedules of the key  *)
+(* generation are explored with the message pool as an unordered bag       *)
+(* (InitD / NextD, invariant DkgLive, strict negation "reveal-needs-       *)
+(* commit"); attacks on the Fiat-Shamir binding (objects "mall", "forge",  *)
+(* "oracle") are adversary cases whose verdict is computed for the oracle  *)
+(* as coded (must be rejected) and for its strict negation, in which the   *)
+(* targeted component is not absorbed (must be accepted): field `neg`.     *)
 (***************************************************************************)
 EXTENDS Integers, Sequences, FiniteSets, TLC, Json
 
@@ -32,8 +41,10 @@ CONSTANTS MaxN,     \* parties: 2 <= t <= n <= MaxN
           MaxL,     \* message vector lengths 1..MaxL
           FullL,    \* lengths <= FullL: every vector over the 3-symbol alphabet; longer: one vector per equality pattern
           CatL,     \* C09: message lengths used for the perturbation catalogue
-          Kinds     \* "one": one algebraic perturbation and the cross-session substitution per field, first and last index, first signer;
-                    \* "all": every kind, every index, swaps, substitution from a fresh proof, every signer
+          Kinds,    \* "one": one algebraic perturbation and the cross-session substitution per field, first and last index, first signer;
+                    \* "all": every kind, every index, swaps, substitution from a fresh proof, every signer, every signer order
+          DkgN,     \* numbers of parties for which the delivery schedules of the key generation are explored
+          Negate    \* strict-negation switches (anti-vacuity runs): "reveal-needs-commit"
 
 Q == 46337
 
@@ -125,7 +136,9 @@ PertSeq(s, i, j, kind, other) == IF kind = "swap" THEN SwapSeq(s, i, j) ELSE [s 
 PertRec(r, field, i, j, kind, o) == IF i = 0 THEN [r EXCEPT ![field] = PertV(r[field], kind, o[field])]
                                     ELSE [r EXCEPT ![field] = PertSeq(r[field], i, j, kind, o[field])]
 
-Res(v, stage, eq, changed) == [v |-> v, v2 |-> v, same |-> TRUE, stage |-> stage, eq |-> eq, changed |-> changed]
+\* neg: the verdict in the STRICT-NEGATION variant of the model (the Fiat-Shamir oracle does not absorb the component(s) an attack
+\* targets); equal to v for every case that is not such an attack
+Res(v, stage, eq, changed) == [v |-> v, v2 |-> v, same |-> TRUE, stage |-> stage, eq |-> eq, changed |-> changed, neg |-> v]
 
 -----------------------------------------------------------------------------
 \* ------------------------------- BLS ------------------------------------
@@ -184,49 +197,79 @@ PsAggPK(pks, pts, nn) == LET lam == Lams(pts) IN
 \* the Fiat-Shamir oracle of the request proof, EXACTLY as coded in randomOracleForBlindingProof: for i < n: d[i], f[i], a[i], b[i];
 \* then s, cm (the FULL commitment, including gs[n-1]^mPrime), g, g0, h, u.  The generators gs[] are NOT fed to the hash (the loop
 \* calls gs[i].Bytes() and discards the result); neither are mPrime, z, x[], y[] (responses).
-RO1(cs, nn, d, f, s, a, b, cm, h, u) ==
+\* A = [d, f, a, b (sequences), s, cm, g, g0, h, u, gs]: the arguments by name.  drop: set of <<name, index>> (index 0 for a scalar
+\* argument) that the STRICT-NEGATION variant of the oracle does not absorb (the empty set: the oracle as coded).
+Zd(drop, name, i, v) == IF <<name, i>> \in drop THEN 0 ELSE v
+RO1r(cs, drop, nn, A) ==
   Hash(Seed(cs) + 3, [k \in 1..(4 * nn) |-> LET i == ((k - 1) \div 4) + 1  w == (k - 1) % 4 IN
-                                             CASE w = 0 -> d[i] [] w = 1 -> f[i] [] w = 2 -> a[i] [] OTHER -> b[i]]
-                     \o <<s, cm, GG(cs), G0(cs), h, u>>)
+                                             CASE w = 0 -> Zd(drop, "d", i, A.d[i]) [] w = 1 -> Zd(drop, "f", i, A.f[i])
+                                               [] w = 2 -> Zd(drop, "a", i, A.a[i]) [] OTHER -> Zd(drop, "b", i, A.b[i])]
+                     \o <<Zd(drop, "s", 0, A.s), Zd(drop, "cm", 0, A.cm), Zd(drop, "g", 0, A.g), Zd(drop, "g0", 0, A.g0),
+                          Zd(drop, "h", 0, A.h), Zd(drop, "u", 0, A.u)>>)
+RO1d(cs, drop, nn, d, f, s, a, b, cm, h, u) ==
+  RO1r(cs, drop, nn, [d |-> d, f |-> f, a |-> a, b |-> b, s |-> s, cm |-> cm, g |-> GG(cs), g0 |-> G0(cs), h |-> h, u |-> u])
+RO1(cs, nn, d, f, s, a, b, cm, h, u) == RO1d(cs, {}, nn, d, f, s, a, b, cm, h, u)
 \* randomOracleForPoKofSignature: Y[0..], X, g2, Gamma, Phi, nu, h^eps, kappa.   (h'^eps and the responses are not hashed)
-RO2(cs, Y, X, gamma, phi, nu, heps, kappa) == Hash(Seed(cs) + 4, Y \o <<X, G2E(cs), gamma, phi, nu, heps, kappa>>)
+\* A = [Y (sequence), X, g2, gamma, phi, nu, heps, kappa]
+RO2r(cs, drop, A) ==
+  Hash(Seed(cs) + 4, [i \in 1..Len(A.Y) |-> Zd(drop, "Y", i, A.Y[i])]
+                     \o <<Zd(drop, "X", 0, A.X), Zd(drop, "g2", 0, A.g2), Zd(drop, "gamma", 0, A.gamma), Zd(drop, "phi", 0, A.phi),
+                          Zd(drop, "nu", 0, A.nu), Zd(drop, "heps", 0, A.heps), Zd(drop, "kappa", 0, A.kappa)>>)
+RO2d(cs, drop, Y, X, gamma, phi, nu, heps, kappa) ==
+  RO2r(cs, drop, [Y |-> Y, X |-> X, g2 |-> G2E(cs), gamma |-> gamma, phi |-> phi, nu |-> nu, heps |-> heps, kappa |-> kappa])
+RO2(cs, Y, X, gamma, phi, nu, heps, kappa) == RO2d(cs, {}, Y, X, gamma, phi, nu, heps, kappa)
 
-\* ps.go Blind (+ commit, encrypt, proveBlindingIsWellFormed); randomness of request `se`
-PsBlind(cs, se, L, m) ==
+\* ps.go Blind (+ commit, encrypt, proveBlindingIsWellFormed); randomness of request `se`.
+\* drop: oracle variant (see RO1r).  tgt = <<"none", 0>>: the honest prover.  Otherwise a Byzantine prover mounting the weak Fiat-Shamir
+\* attack on one proof commitment: it tampers with a value the proof is about (tgt "s": the commitment cm no longer opens to the
+\* encrypted messages; "d", i: the ciphertext component b[i] is arbitrary; "f", i: a[i] is arbitrary), computes the challenge with a
+\* placeholder for the targeted proof commitment, computes the honest responses and finally SOLVES the verification equation for the
+\* targeted commitment.  The forged request verifies exactly if the challenge does not depend on that commitment.
+PsBlindF(cs, drop, tgt, se, L, m) ==
   LET nn == L + 1
       rcm == Rnd(cs, <<se, 2, 1>>)
       z   == Rnd(cs, <<se, 2, 2>>)                                   \* ElGamal private key
       u   == Mul(GG(cs), z)
-      cm0 == Add(Mul(G0(cs), rcm), Sum([i \in 1..L |-> Mul(GS(cs, i), m[i])]))          \* commit(pp, rcm, m)
+      cmH == Add(Mul(G0(cs), rcm), Sum([i \in 1..L |-> Mul(GS(cs, i), m[i])]))          \* commit(pp, rcm, m)
+      cm0 == IF tgt[1] = "s" THEN Add(cmH, 1) ELSE cmH
       mP  == HZ(cs, cm0)
       cm  == Add(cm0, Mul(GS(cs, nn), mP))
       h   == HG(cs, cm)
       msg == V([i \in 1..nn |-> IF i <= L THEN m[i] ELSE mP])
       r   == V([i \in 1..nn |-> Rnd(cs, <<se, 3, i>>)])
-      a   == V([i \in 1..nn |-> Mul(GG(cs), r[i])])
-      b   == V([i \in 1..nn |-> Add(Mul(h, msg[i]), Mul(u, r[i]))])
+      a   == V([i \in 1..nn |-> Add(Mul(GG(cs), r[i]), IF tgt = <<"f", i>> THEN 1 ELSE 0)])
+      b   == V([i \in 1..nn |-> Add(Add(Mul(h, msg[i]), Mul(u, r[i])), IF tgt = <<"d", i>> THEN 1 ELSE 0)])
       al  == V([i \in 1..nn |-> Rnd(cs, <<se, 4, i>>)])
       be  == V([i \in 1..nn |-> Rnd(cs, <<se, 5, i>>)])
       ga  == Rnd(cs, <<se, 2, 3>>)
-      s   == Add(Mul(G0(cs), ga), Sum([i \in 1..nn |-> Mul(GS(cs, i), be[i])]))
-      d   == V([i \in 1..nn |-> Add(Mul(h, be[i]), Mul(u, al[i]))])
-      f   == V([i \in 1..nn |-> Mul(GG(cs), al[i])])
-      e   == RO1(cs, nn, d, f, s, a, b, cm, h, u)
-  IN [req |-> [cm |-> cm0, mprime |-> mP, u |-> u, a |-> a, b |-> b, s |-> s, d |-> d, f |-> f,
-               z |-> Add(ga, Mul(e, rcm)),
-               x |-> V([i \in 1..nn |-> Add(al[i], Mul(e, r[i]))]),
-               y |-> V([i \in 1..nn |-> Add(be[i], Mul(e, msg[i]))])],
-      sec |-> [h |-> h, z |-> z, msg |-> msg]]
+      sH  == Add(Mul(G0(cs), ga), Sum([i \in 1..nn |-> Mul(GS(cs, i), be[i])]))
+      dH  == V([i \in 1..nn |-> Add(Mul(h, be[i]), Mul(u, al[i]))])
+      fH  == V([i \in 1..nn |-> Mul(GG(cs), al[i])])
+      \* the challenge: the targeted commitment is not known yet (placeholder: the group generator)
+      e   == RO1d(cs, drop, nn, [i \in 1..nn |-> IF tgt = <<"d", i>> THEN 1 ELSE dH[i]], [i \in 1..nn |-> IF tgt = <<"f", i>> THEN 1 ELSE fH[i]],
+                  IF tgt[1] = "s" THEN 1 ELSE sH, a, b, cm, h, u)
+      zz  == Add(ga, Mul(e, rcm))
+      x   == V([i \in 1..nn |-> Add(al[i], Mul(e, r[i]))])
+      y   == V([i \in 1..nn |-> Add(be[i], Mul(e, msg[i]))])
+      \* solve  cm^e s = g0^z prod gs^y,  u^x h^y = d b^e,  g^x = f a^e  for the targeted commitment
+      s   == IF tgt[1] = "s" THEN Sub(Add(Mul(G0(cs), zz), Sum([i \in 1..nn |-> Mul(GS(cs, i), y[i])])), Mul(cm, e)) ELSE sH
+      d   == V([i \in 1..nn |-> IF tgt = <<"d", i>> THEN Sub(Add(Mul(u, x[i]), Mul(h, y[i])), Mul(b[i], e)) ELSE dH[i]])
+      f   == V([i \in 1..nn |-> IF tgt = <<"f", i>> THEN Sub(Mul(GG(cs), x[i]), Mul(a[i], e)) ELSE fH[i]])
+  IN [req |-> [cm |-> cm0, mprime |-> mP, u |-> u, a |-> a, b |-> b, s |-> s, d |-> d, f |-> f, z |-> zz, x |-> x, y |-> y],
+      sec |-> [h |-> h, z |-> z, msg |-> msg],
+      args |-> [d |-> d, f |-> f, a |-> a, b |-> b, s |-> s, cm |-> cm, g |-> GG(cs), g0 |-> G0(cs), h |-> h, u |-> u,
+                gs |-> V([i \in 1..nn |-> GS(cs, i)])]]
+PsBlind(cs, se, L, m) == PsBlindF(cs, {}, <<"none", 0>>, se, L, m)
 
 \* ps.go SignBlindSignature + BlindCorrectFormProof.Verify.  mPrime and h are RECOMPUTED from req.cm (req.mprime is never read).
 \* `after` is the request object after the call AS CODED: the first loop does `right := xi.d[i]; right.Add(b[i].Mul(e))` without
 \* Copy(), which overwrites d[i] in the caller's proof for every index the loop examined (named deviation MutatesProofD).
-PsSignBlind(cs, L, req, sk) ==
+PsSignBlindD(cs, drop, L, req, sk) ==
   LET nn == L + 1
       mP == HZ(cs, req.cm)
       cm == Add(req.cm, Mul(GS(cs, nn), mP))
       h  == HG(cs, cm)
-      e  == RO1(cs, nn, req.d, req.f, req.s, req.a, req.b, cm, h, req.u)
+      e  == RO1d(cs, drop, nn, req.d, req.f, req.s, req.a, req.b, cm, h, req.u)
       bad1 == {i \in 1..nn : Add(Mul(req.u, req.x[i]), Mul(h, req.y[i])) # Add(req.d[i], Mul(req.b[i], e))}     \* u^x h^y = d b^e
       bad2 == {i \in 1..nn : Mul(GG(cs), req.x[i]) # Add(req.f[i], Mul(req.a[i], e))}                            \* g^x = f a^e
       ok3  == Add(Mul(cm, e), req.s) = Add(Mul(G0(cs), req.z), Sum([i \in 1..nn |-> Mul(GS(cs, i), req.y[i])]))  \* cm^e s = g0^z prod gs^y
@@ -239,6 +282,8 @@ PsSignBlind(cs, L, req, sk) ==
       \*  after |-> [req EXCEPT !.d = V([i \in 1..nn |-> IF i \in examined THEN Add(req.d[i], Mul(req.b[i], e)) ELSE req.d[i]])])
       after |-> req]
 
+PsSignBlind(cs, L, req, sk) == PsSignBlindD(cs, {}, L, req, sk)
+
 \* ps.go UnBlind: hPrime = b - z*a;  e(g2^-1, hPrime) * e(X + sum Y_i m_i, h) = 1
 PsUnBlind(cs, pk, sig, sec) ==
   LET hP == Sub(sig.b, Mul(sec.z, sig.a))
@@ -246,7 +291,7 @@ PsUnBlind(cs, pk, sig, sec) ==
   IN [ok |-> Add(Mul(Neg(G2E(cs)), hP), Mul(E, sec.h)) = 0, w |-> hP]
 
 \* ps.go PoKofSig + proveProofOfKnowledgeOfSignatureIsCorrectlyFormed; randomness of proof `pr`
-PsPoK(cs, pr, pk, h, hP, msg) ==
+PsPoKD(cs, drop, pr, pk, h, hP, msg) ==
   LET nn == Len(msg)
       eps == RndNZ(cs, <<pr, 6, 1>>)
       del == Rnd(cs, <<pr, 6, 2>>)
@@ -258,17 +303,37 @@ PsPoK(cs, pr, pk, h, hP, msg) ==
       hpeps == Mul(hP, eps)
       gamma == Add(Mul(G2E(cs), mu), Dot(pk.Y, gam))
       phi   == Mul(heps, mu)
-      e     == RO2(cs, pk.Y, pk.X, gamma, phi, nu, heps, kappa)
+      e     == RO2d(cs, drop, pk.Y, pk.X, gamma, phi, nu, heps, kappa)
   IN [x |-> V([i \in 1..nn |-> Add(gam[i], Mul(e, msg[i]))]), y |-> Add(mu, Mul(e, del)),
       gamma |-> gamma, phi |-> phi, heps |-> heps, hpeps |-> hpeps, nu |-> nu, kappa |-> kappa]
+PsPoK(cs, pr, pk, h, hP, msg) == PsPoKD(cs, {}, pr, pk, h, hP, msg)
+
+\* A proof of knowledge fabricated from the PUBLIC KEY ALONE (no share, no signature) by the weak Fiat-Shamir attack on Gamma:
+\* kappa = g2^k of known discrete log, h^eps arbitrary, nu = (h^eps)^del, h'^eps = (h^eps)^(k - del) satisfy the pairing condition;
+\* Phi = (h^eps)^mu; the challenge is computed with a placeholder for Gamma; y = mu + e del, x arbitrary; finally
+\* Gamma := g2^y prod Y^x (kappa/X)^-e.  It verifies exactly if the challenge does not depend on Gamma.
+PsForgePoK(cs, drop, pk) ==
+  LET nn == Len(pk.Y)
+      k == Rnd(cs, <<9, 1>>)  del == Rnd(cs, <<9, 2>>)  mu == Rnd(cs, <<9, 3>>)
+      heps == RndNZ(cs, <<9, 4>>)
+      x == V([i \in 1..nn |-> Rnd(cs, <<9, 5, i>>)])
+      kappa == Mul(G2E(cs), k)
+      nu == Mul(heps, del)
+      phi == Mul(heps, mu)
+      e == RO2d(cs, drop, pk.Y, pk.X, 1, phi, nu, heps, kappa)
+      y == Add(mu, Mul(e, del))
+  IN [x |-> x, y |-> y, gamma |-> Sub(Add(Mul(G2E(cs), y), Dot(x, pk.Y)), Mul(Sub(kappa, pk.X), e)), phi |-> phi,
+      heps |-> heps, hpeps |-> Mul(heps, Sub(k, del)), nu |-> nu, kappa |-> kappa]
 
 \* ps.go SigPoK.Verify: psi.Verify (checkcommitmentForm, then the nu equation), h^eps # 0, pairing condition
-PsVerify(cs, pok, pk) ==
-  LET e == RO2(cs, pk.Y, pk.X, pok.gamma, pok.phi, pok.nu, pok.heps, pok.kappa)
+PsVerifyD(cs, drop, pok, pk) ==
+  LET e == RO2d(cs, drop, pk.Y, pk.X, pok.gamma, pok.phi, pok.nu, pok.heps, pok.kappa)
       okK == Add(Mul(G2E(cs), pok.y), Dot(pok.x, pk.Y)) = Add(pok.gamma, Mul(Sub(pok.kappa, pk.X), e))    \* g2^y prod Y^x = Gamma (kappa/X)^e
       okN == Mul(pok.heps, pok.y) = Add(Mul(pok.nu, e), pok.phi)                                           \* (h^eps)^y = nu^e Phi
       okP == Add(Mul(pok.kappa, pok.heps), Mul(Neg(G2E(cs)), Add(pok.hpeps, pok.nu))) = 0                 \* e(kappa,h^eps) e(g2^-1, h'^eps nu) = 1
   IN IF ~okK THEN "EK" ELSE IF ~okN THEN "EN" ELSE IF pok.heps = 0 THEN "H0" ELSE IF ~okP THEN "PAIR" ELSE "ok"
+
+PsVerify(cs, pok, pk) == PsVerifyD(cs, {}, pok, pk)
 
 \* everything an honest session computes: DKG `se`, request `se`, signers S (party identifiers = evaluation points 1..n)
 PsSKs(cs, se, n, t, L) == V([j \in 1..n |-> PsSK(cs, se, n, t, L, j)])
@@ -286,6 +351,15 @@ PsDkgOK(cs, se, n, t, L) == LET pks == V([j \in 1..n |-> PsPKof(cs, PsSK(cs, se,
                             \A T \in TSubsets(n, t) : PsAggPK(pks, T, L + 1) = tpk
 
 PsProofOf(cs, pr, tpk, sec, wits, signers) == PsPoK(cs, pr, tpk, sec.h, AggPos(wits, signers), sec.msg)
+
+AccS(b) == IF b THEN "accept" ELSE "reject"
+\* named oracle arguments: read / write / swap
+ArgGet(A, name, i) == IF i = 0 THEN A[name] ELSE A[name][i]
+ArgSet(A, name, i, v) == IF i = 0 THEN [A EXCEPT ![name] = v] ELSE [A EXCEPT ![name][i] = v]
+\* pairs of same-typed oracle arguments that are exchanged (the transcript is position-sensitive)
+PokSwaps == {<<"phi", "nu">>, <<"nu", "heps">>, <<"gamma", "kappa">>, <<"X", "g2">>, <<"X", "kappa">>, <<"Y", "Y">>, <<"Y", "X">>}
+ReqSwaps == {<<"d", "f">>, <<"a", "b">>, <<"f", "a">>, <<"d", "d">>, <<"b", "d">>, <<"s", "cm">>, <<"g", "g0">>, <<"h", "u">>, <<"cm", "g">>}
+SwapName(pr) == pr[1] \o "~" \o pr[2]
 
 PsExpect(cs, c) ==
   LET n == c.n  t == c.t  L == c.L  S == c.S  nn == c.L + 1
@@ -323,7 +397,7 @@ PsExpect(cs, c) ==
          LET r1 == PsSignBlind(cs, L, req0, sks1[S[c.who]])
              r2 == PsSignBlind(cs, L, r1.after, sks1[S[c.who]])
          IN [v |-> IF r1.ok THEN "accept" ELSE "reject", v2 |-> IF r2.ok THEN "accept" ELSE "reject", same |-> r1.after = req0,
-             stage |-> "sign", eq |-> r2.eq, changed |-> FALSE]
+             stage |-> "sign", eq |-> r2.eq, changed |-> FALSE, neg |-> IF r1.ok THEN "accept" ELSE "reject"]
     [] c.obj = "sig" ->
          \* the blinded partial signature of signer S[who] altered / taken from another session / unblinded under another signer's key
          LET sg0 == sg1[c.who].sig
@@ -359,6 +433,58 @@ PsExpect(cs, c) ==
     [] c.obj = "tpk" ->
          LET key == PertRec(tpk1, c.field, c.i, 0, c.kind, s2.tpk)
          IN [ver(pok0, key) EXCEPT !.changed = key # tpk1]
+    [] c.obj = "mall" ->
+         \* a genuine proof / request altered in SEVERAL components that compensate each other in every verification equation: it
+         \* still verifies exactly if the challenge did not change, i.e. if the oracle does not absorb the altered commitment(s).
+         \* (In the strict-negation world prover and verifier share the weakened oracle: the genuine object is rebuilt with it.)
+         IF c.field = "pok" THEN
+           LET drop == IF c.kind = "gamma-x" THEN {<<"gamma", 0>>} ELSE {<<"gamma", 0>>, <<"phi", 0>>}
+               mall(dr) == LET p0 == PsPoKD(cs, dr, 1, tpk1, sec.h, AggPos(wits0, S), sec.msg)
+                               p1 == IF c.kind = "gamma-x"
+                                     THEN [p0 EXCEPT !.gamma = Add(@, tpk1.Y[c.i]), !.x[c.i] = Add(@, 1)]                        \* Gamma*Y_i, x_i+1
+                                     ELSE [p0 EXCEPT !.gamma = Add(@, G2E(cs)), !.phi = Add(@, p0.heps), !.y = Add(@, 1)]        \* Gamma*g2, Phi*h^eps, y+1
+                           IN PsVerifyD(cs, dr, p1, tpk1)
+               r == mall({})
+           IN [Res(AccS(r = "ok"), "verify", r, TRUE) EXCEPT !.neg = AccS(mall(drop) = "ok")]
+         ELSE
+           LET drop == IF c.kind = "s-z" THEN {<<"s", 0>>} ELSE {<<"d", c.i>>, <<"f", c.i>>}
+               mall(dr) == LET q0 == PsBlindF(cs, dr, <<"none", 0>>, 1, L, m).req
+                               q1 == IF c.kind = "s-z"
+                                     THEN [q0 EXCEPT !.s = Add(@, G0(cs)), !.z = Add(@, 1)]                                      \* s*g0, z+1
+                                     ELSE [q0 EXCEPT !.d[c.i] = Add(@, q0.u), !.f[c.i] = Add(@, GG(cs)), !.x[c.i] = Add(@, 1)]   \* d_i*u, f_i*g, x_i+1
+                           IN PsSignBlindD(cs, dr, L, q1, sks1[S[c.who]])
+               r == mall({})
+           IN [Res(AccS(r.ok), "sign", r.eq, TRUE) EXCEPT !.neg = AccS(mall(drop).ok)]
+    [] c.obj = "forge" ->
+         \* weak Fiat-Shamir forgeries by a Byzantine prover that computes the challenge with the library's own oracle
+         IF c.field = "pok" THEN
+           IF c.kind = "control"
+           THEN \* the challenge the library computes for a genuine proof satisfies the first verification equation (checks the binding)
+                Res("accept", "verify", "ok", FALSE)
+           ELSE LET r == PsVerifyD(cs, {}, PsForgePoK(cs, {}, tpk1), tpk1)
+                    rn == PsVerifyD(cs, {<<"gamma", 0>>}, PsForgePoK(cs, {<<"gamma", 0>>}, tpk1), tpk1)
+                IN [Res(AccS(r = "ok"), "verify", r, TRUE) EXCEPT !.neg = AccS(rn = "ok")]
+         ELSE
+           LET tgt == IF c.kind = "control" THEN <<"none", 0>> ELSE <<c.kind, c.i>>
+               forged(dr) == PsSignBlindD(cs, dr, L, PsBlindF(cs, dr, tgt, 4, L, m).req, sks1[S[c.who]])
+               r == forged({})
+           IN [Res(AccS(r.ok), "sign", r.eq, c.kind # "control") EXCEPT !.neg = AccS(forged({tgt}).ok)]
+    [] c.obj = "oracle" ->
+         \* sensitivity of the library's Fiat-Shamir oracles: "accept" = the challenge is the SAME after altering one argument
+         \* (kind = argument name, index i) or exchanging two arguments (kind = "a~b", indices i and j)
+         LET isPok == c.field = "pok"
+             A0 == IF isPok THEN [Y |-> tpk1.Y, X |-> tpk1.X, g2 |-> G2E(cs), gamma |-> pok0.gamma, phi |-> pok0.phi, nu |-> pok0.nu,
+                                  heps |-> pok0.heps, kappa |-> pok0.kappa]
+                   ELSE bl1.args
+             swaps == IF isPok THEN PokSwaps ELSE ReqSwaps
+             isSwap == \E pr \in swaps : SwapName(pr) = c.kind
+             pr == CHOOSE q \in swaps : SwapName(q) = c.kind
+             A1 == IF isSwap THEN ArgSet(ArgSet(A0, pr[1], c.i, ArgGet(A0, pr[2], c.j)), pr[2], c.j, ArgGet(A0, pr[1], c.i))
+                   ELSE ArgSet(A0, c.kind, c.i, Add(ArgGet(A0, c.kind, c.i), 1))
+             drop == IF isSwap THEN {<<pr[1], c.i>>, <<pr[2], c.j>>} ELSE {<<c.kind, c.i>>}
+             ch(dr, A) == IF isPok THEN RO2r(cs, dr, A) ELSE RO1r(cs, dr, nn, A)
+         IN [Res(AccS(ch({}, A0) = ch({}, A1)), "oracle", IF ch({}, A0) = ch({}, A1) THEN "ok" ELSE "differs", A0 # A1)
+               EXCEPT !.neg = AccS(ch(drop, A0) = ch(drop, A1))]
 
 Expect(cs, c) == IF c.sch = "bls" THEN BlsExpect(cs, c) ELSE PsExpect(cs, c)
 
@@ -371,7 +497,8 @@ Model(c) == LET e1 == Expect(1, c)  e2 == Expect(2, c) IN
              stage |-> IF e1.v = "reject" \/ e2.v = "accept" THEN e1.stage ELSE e2.stage,
              eq |-> IF e1.v = "reject" \/ e2.v = "accept" THEN e1.eq ELSE e2.eq,
              changed |-> e1.changed \/ e2.changed,
-             collide |-> e1.v # e2.v]
+             collide |-> e1.v # e2.v,
+             neg |-> IF e1.neg = "accept" /\ e2.neg = "accept" THEN "accept" ELSE "reject"]
 
 \* what the PROPERTY TEXT (C09) demands to be rejected: message, share, signer->share assignment, the key, every value bound by a
 \* proof or by a request (commitment, ciphertext components, ephemeral key, proof commitments and responses), fewer than t shares.
@@ -379,6 +506,10 @@ Model(c) == LET e1 == Expect(1, c)  e2 == Expect(2, c) IN
 MustReject(c) == /\ c.obj \notin {"none", "objsign", "objverify"}
                  /\ ~(c.obj = "req" /\ c.field = "mprime")
                  /\ ~(c.sch = "bls" /\ c.obj = "pk")
+                 /\ ~(c.obj = "forge" /\ c.kind = "control")
+                 /\ ~(c.obj = "oracle" /\ c.kind = "gs")          \* the generators gs[] are public constants; the code does not hash them
+\* the attacks on the Fiat-Shamir binding: rejected by the model, accepted by its strict negation
+IsAttack(c) == c.obj \in {"mall", "forge", "oracle"} /\ MustReject(c)
 
 -----------------------------------------------------------------------------
 \* ------------------------- case enumeration -----------------------------
@@ -392,20 +523,32 @@ Base(sch, n, t, L, ids, S, mv) == [sch |-> sch, n |-> n, t |-> t, L |-> L, ids |
 P(c0, obj, field, i, j, kind, who) == [c0 EXCEPT !.obj = obj, !.field = field, !.i = i, !.j = j, !.kind = kind, !.who = who]
 Iota(n) == [k \in 1..n |-> k]
 
-\* C08: every (n,t), every signer set of size >= t, every message vector
+All == Kinds = "all"
+MvFor(L) == [i \in 1..L |-> IF i <= 2 THEN 1 ELSE 2]          \* equal entries included
+
+\* The property speaks of every SET of signers: the order in which (signer, share / witness) pairs are handed to the aggregation must
+\* not matter.  Orders(S): the other orders of the ascending list S -- reversed and every rotation; "all": every permutation.
+IsAsc(S) == \A i \in 1..(Len(S) - 1) : S[i] < S[i + 1]
+RevSeq(S) == [i \in 1..Len(S) |-> S[Len(S) + 1 - i]]
+RotSeq(S, k) == [i \in 1..Len(S) |-> S[((i - 1 + k) % Len(S)) + 1]]
+PermsOf(S) == {V([i \in 1..Len(S) |-> S[f[i]]]) : f \in {g \in [1..Len(S) -> 1..Len(S)] : \A i, j \in 1..Len(S) : i # j => g[i] # g[j]}}
+Orders(S) == (IF All THEN PermsOf(S) ELSE {V(RevSeq(S))} \cup {V(RotSeq(S, k)) : k \in 1..(Len(S) - 1)}) \ {S}
+
+\* C08: every (n,t), every signer set of size >= t, every message vector (signers ascending) + every other signer order (one vector)
 Cases08For(n, t, L) == {Base("ps", n, t, L, Iota(n), S, mv) : S \in SignerSets(n, t), mv \in Vectors(L)}
+                       \cup UNION {{Base("ps", n, t, L, Iota(n), O, MvFor(L)) : O \in Orders(S)} : S \in SignerSets(n, t)}
 Cases08 == UNION {Cases08For(nt[1], nt[2], L) : nt \in NT, L \in 1..MaxL}
 
 \* C09 base cases.  BLS additionally with party identifiers that are not 1..n (the Verifier's party -> evaluation point table)
 AltIds(n) == [k \in 1..n |-> 3 * k + 2]
-MvFor(L) == [i \in 1..L |-> IF i <= 2 THEN 1 ELSE 2]          \* equal entries included
-BlsBasesFor(n, t) == {Base("bls", n, t, 0, Iota(n), S, <<>>) : S \in SignerSets(n, t)}
-                     \cup {Base("bls", n, t, 0, AltIds(n), [q \in 1..Len(S) |-> AltIds(n)[S[q]]], <<>>) : S \in SignerSets(n, t)}
+\* (genuine cases in every other signer order are added; the catalogue is applied to the ascending ones only)
+WithOrders(T) == T \cup UNION {Orders(S) : S \in T}
+BlsBasesFor(n, t) == {Base("bls", n, t, 0, Iota(n), S, <<>>) : S \in WithOrders(SignerSets(n, t))}
+                     \cup {Base("bls", n, t, 0, AltIds(n), V([q \in 1..Len(S) |-> AltIds(n)[S[q]]]), <<>>) : S \in WithOrders(SignerSets(n, t))}
 BlsBases == UNION {BlsBasesFor(nt[1], nt[2]) : nt \in NT}
-PsBasesFor(n, t, L) == {Base("ps", n, t, L, Iota(n), S, MvFor(L)) : S \in SignerSets(n, t)}
+PsBasesFor(n, t, L) == {Base("ps", n, t, L, Iota(n), S, MvFor(L)) : S \in WithOrders(SignerSets(n, t))}
 PsBases == UNION {PsBasesFor(nt[1], nt[2], L) : nt \in NT, L \in CatL}
 
-All == Kinds = "all"
 PointKinds  == IF All THEN {"addgen", "double", "cross"} ELSE {"addgen", "cross"}
 ScalarKinds == IF All THEN {"plus1", "double", "cross"} ELSE {"plus1", "cross"}
 Pairs(k) == IF All THEN {ij \in (1..k) \X (1..k) : ij[1] < ij[2]} ELSE {ij \in (1..k) \X (1..k) : ij[1] = 1 /\ ij[2] = 2}
@@ -430,6 +573,31 @@ ReqScalarVec == {"x", "y"}
 ReqPoint     == {"cm", "u", "s"}
 ReqScalar    == {"z", "mprime"}
 PokPoint     == {"gamma", "phi", "heps", "hpeps", "nu", "kappa"}
+
+\* Fiat-Shamir binding (every value the oracles list must determine the challenge): compensated alterations of genuine objects,
+\* forgeries that solve a verification equation for a proof commitment after computing the challenge, and the sensitivity of the
+\* oracles themselves to every argument and to exchanges of arguments
+FsAttacks(c0) ==
+  LET nn == c0.L + 1
+      idx == IF All THEN 1..nn ELSE {1, nn}
+      adj == {i \in idx : i < nn}
+  IN
+  {P(c0, "mall", "pok", i, 0, "gamma-x", 0) : i \in idx}
+  \cup {P(c0, "mall", "pok", 0, 0, "gamma-phi-y", 0), P(c0, "mall", "req", 0, 0, "s-z", 1)}
+  \cup {P(c0, "mall", "req", i, 0, "d-f-x", 1) : i \in idx}
+  \cup {P(c0, "forge", "pok", 0, 0, kd, 0) : kd \in {"control", "gamma"}}
+  \cup {P(c0, "forge", "req", 0, 0, kd, 1) : kd \in {"control", "s"}}
+  \cup {P(c0, "forge", "req", i, 0, kd, 1) : kd \in {"d", "f"}, i \in idx}
+  \cup {P(c0, "oracle", "pok", 0, 0, a, 0) : a \in {"X", "g2", "gamma", "phi", "nu", "heps", "kappa"}}
+  \cup {P(c0, "oracle", "pok", i, 0, "Y", 0) : i \in idx}
+  \cup {P(c0, "oracle", "pok", 0, 0, SwapName(pr), 0) : pr \in PokSwaps \ {<<"Y", "Y">>, <<"Y", "X">>}}
+  \cup {P(c0, "oracle", "pok", i, i + 1, "Y~Y", 0) : i \in adj}
+  \cup {P(c0, "oracle", "pok", nn, 0, "Y~X", 0)}
+  \cup {P(c0, "oracle", "req", 0, 0, a, 0) : a \in {"s", "cm", "g", "g0", "h", "u"}}
+  \cup {P(c0, "oracle", "req", i, 0, a, 0) : a \in {"d", "f", "a", "b", "gs"}, i \in idx}
+  \cup {P(c0, "oracle", "req", 0, 0, SwapName(pr), 0) : pr \in {<<"s", "cm">>, <<"g", "g0">>, <<"h", "u">>, <<"cm", "g">>}}
+  \cup {P(c0, "oracle", "req", i, i, SwapName(pr), 0) : pr \in {<<"d", "f">>, <<"a", "b">>, <<"f", "a">>}, i \in idx}
+  \cup {P(c0, "oracle", "req", i, i + 1, SwapName(pr), 0) : pr \in {<<"d", "d">>, <<"b", "d">>}, i \in adj}
 
 PsPerts(c0) ==
   LET k == Len(c0.S)  nn == c0.L + 1
@@ -465,8 +633,53 @@ PsPerts(c0) ==
   \cup {P(c0, "tpk", "Y", i, 0, kd, 0) : i \in idx, kd \in PointKinds}
   \* side-effect freedom at object level
   \cup {P(c0, "objsign", "", 0, 0, "twice", 1), P(c0, "objverify", "", 0, 0, "twice", 0)}
+  \cup (IF All \/ c0.S = Iota(c0.t) THEN FsAttacks(c0) ELSE {})
 
 Perts(c0) == IF c0.sch = "bls" THEN BlsPerts(c0) ELSE PsPerts(c0)
+
+-----------------------------------------------------------------------------
+\* ------------------- delivery schedules of the key generation -------------------
+\* mpc/ps/tps.go and mpc/bls/mpc.go (same shape): KeyGen sends a share to every other party (point to point), waits for n-1 shares,
+\* combines them, broadcasts the COMMITMENT to its public key, waits for n-1 commitments, broadcasts the PUBLIC KEY, waits until it
+\* holds n public keys, checks every public key against the commitment (validateCommitments) and assembles the threshold key.
+\* OnMsg only STORES what arrives (first value per sender), whatever the phase of the receiver: the back ends tolerate every arrival
+\* order.  The message pool therefore is an unordered bag: any pending message <<kind, from, to>> (kind 1 share, 2 commitment,
+\* 3 public key) may be delivered next; in particular the public key of p may reach r before p's commitment does.
+\* A state: ph[p] (1 waiting for shares, 2 for commitments, 3 for public keys, 4 finished), sh / cm / rv[p] (senders whose share /
+\* commitment / public key p holds), pool (pending), del (delivered).
+DkgInit(n) == [ph |-> [p \in 1..n |-> 1], sh |-> [p \in 1..n |-> {}], cm |-> [p \in 1..n |-> {}], rv |-> [p \in 1..n |-> {}],
+               pool |-> {m \in {1} \X (1..n) \X (1..n) : m[2] # m[3]}, del |-> {}]
+DkgBcast(k, p, n) == {<<k, p, q>> : q \in (1..n) \ {p}}
+\* the KeyGen goroutine of r moves on as far as what r holds allows (the wait loops of the code)
+DkgStep(D, r, n) ==
+  IF D.ph[r] = 1 /\ Cardinality(D.sh[r]) = n - 1 THEN [D EXCEPT !.ph[r] = 2, !.pool = @ \cup DkgBcast(2, r, n)]
+  ELSE IF D.ph[r] = 2 /\ Cardinality(D.cm[r]) = n - 1 THEN [D EXCEPT !.ph[r] = 3, !.pool = @ \cup DkgBcast(3, r, n)]
+  ELSE IF D.ph[r] = 3 /\ Cardinality(D.rv[r]) = n - 1 THEN [D EXCEPT !.ph[r] = 4]
+  ELSE D
+\* strict = the STRICT-NEGATION variant "a public key is accepted only if the sender's commitment is already there" (what a receiver
+\* would do if it checked the de-commitment on arrival instead of at the end); the code under test does not do this
+DkgDeliver(D, m, n, strict) ==
+  LET k == m[1]  p == m[2]  r == m[3]
+      D1 == [D EXCEPT !.pool = @ \ {m}, !.del = @ \cup {m}]
+      D2 == CASE k = 1 -> [D1 EXCEPT !.sh[r] = @ \cup {p}]
+              [] k = 2 -> [D1 EXCEPT !.cm[r] = @ \cup {p}]
+              [] OTHER -> IF strict /\ p \notin D1.cm[r] THEN D1 ELSE [D1 EXCEPT !.rv[r] = @ \cup {p}]
+  IN DkgStep(DkgStep(DkgStep(D2, r, n), r, n), r, n)
+DkgAllDone(D, n) == D.pool = {} /\ \A p \in 1..n : D.ph[p] = 4
+
+\* exploration.  pol.kind = "any": every pending message may be delivered next (all schedules);
+\* "target": the commitment of pol.p is held back at pol.r until pol.p's public key has arrived there (the public key overtakes the
+\* commitment), everything else in a fixed order (pol.tie): one deterministic schedule per (p, r, tie)
+DkgKey(m) == 100 * m[1] + 10 * m[2] + m[3]
+DkgEligible(cc, D) ==
+  IF cc.pol.kind = "any" THEN D.pool
+  ELSE LET held == IF <<3, cc.pol.p, cc.pol.r>> \notin D.del THEN {<<2, cc.pol.p, cc.pol.r>>} ELSE {}
+           cand == D.pool \ held
+       IN IF cand = {} THEN {}
+          ELSE {CHOOSE m \in cand : \A m2 \in cand : IF cc.pol.tie = "min" THEN DkgKey(m) <= DkgKey(m2) ELSE DkgKey(m) >= DkgKey(m2)}
+DkgConfigs(n) == {[sch |-> "dkg", n |-> n, pol |-> [kind |-> "any", p |-> 0, r |-> 0, tie |-> "min"]]}
+                 \cup {[sch |-> "dkg", n |-> n, pol |-> [kind |-> "target", p |-> pr[1], r |-> pr[2], tie |-> tie]] :
+                          pr \in {x \in (1..n) \X (1..n) : x[1] # x[2]}, tie \in {"min", "max"}}
 
 -----------------------------------------------------------------------------
 \* The model is evaluated inside ACTIONS (phase "todo" -> "done"), not inside invariants: TLC caches the value of a LET definition
@@ -489,9 +702,27 @@ Init09 == Pending(BlsBases \cup PsBases)
 Next09 == \/ /\ ph = "todo" /\ ph' = "done" /\ c' = c
              /\ res' = <<Model(c)>>
              /\ PrintT(<<"PERT", ToJson([c |-> c, m |-> res'[1], must |-> MustReject(c)])>>)
-          \/ /\ ph = "done" /\ c.obj = "none"
+          \/ /\ ph = "done" /\ c.obj = "none" /\ IsAsc(c.S)
              /\ c' \in Perts(c) /\ ph' = "todo" /\ res' = <<>>
-Cat09 == (ph = "done" /\ c.obj = "none") =>
+Cat09 == /\ (ph = "done" /\ c.obj = "none") =>
             /\ res[1].v = "accept" /\ ~res[1].collide
             /\ c.sch = "bls" => (BlsDkgOK(1, 1, c.n, c.t) /\ BlsDkgOK(2, 1, c.n, c.t))
+         \* every attack on the Fiat-Shamir binding is rejected in the model (the oracle absorbs the component) and accepted in the
+         \* strict-negation variant (the component is not absorbed): the attack really decides the binding
+         /\ (ph = "done" /\ IsAttack(c)) => (res[1].v = "reject" /\ res[1].neg = "accept")
+
+\* key generation: res = <<state, deliveries so far>>
+InitD == \E n \in DkgN : c \in DkgConfigs(n) /\ ph = "run" /\ res = <<DkgInit(n), <<>>>>
+\* (random walks: only the unrestricted policy)
+InitDAny == \E n \in DkgN : c \in {x \in DkgConfigs(n) : x.pol.kind = "any"} /\ ph = "run" /\ res = <<DkgInit(n), <<>>>>
+NextD == \/ /\ ph = "run"
+             /\ \E m \in DkgEligible(c, res[1]) :
+                   res' = <<DkgDeliver(res[1], m, c.n, "reveal-needs-commit" \in Negate), Append(res[2], m)>>
+             /\ UNCHANGED <<c, ph>>
+          \/ /\ ph = "run" /\ DkgEligible(c, res[1]) = {}
+             /\ ph' = "fin" /\ UNCHANGED <<c, res>>
+             /\ PrintT(<<"SCHED", ToJson([n |-> c.n, pol |-> c.pol, sched |-> res[2]])>>)
+ViewD == <<c, ph, res[1]>>
+\* whatever the order of deliveries: once nothing is deliverable any more everything was delivered and every party has finished
+DkgLive == ph = "fin" => DkgAllDone(res[1], c.n)
 =============================================================================
